@@ -63,7 +63,8 @@ def floors(tier):
                         "radius:200": 200 * m,
                         "edge:horizontal-leg": 100 * m, "edge:vertical-leg": 100 * m, "edge:midvertex": 300 * m,
                         "edge:oneway": 300 * m,
-                        "matched-on:horizontal-leg-edge": 50 * m, "edge_geometries_of_100+_vertices": 10 * m},
+                        "matched-on:horizontal-leg-edge": 50 * m, "edge_geometries_of_100+_vertices": 10 * m,
+                        "history_network_moved_in_place_and_prepared_again": 200 * m},
             # ... counters count fixes
             "counters": {"fix:on": 2000 * m, "fix:near": 2000 * m, "fix:vertex": 500 * m, "fix:far": 500 * m,
                          "fix:gridline": 500 * m, "fix:off": 100 * m,
@@ -474,6 +475,44 @@ def run_case(case, ctx):
             ctx.count("matchings_hitting_open_finding")
             if known is None:
                 known = w
+    if known is None and (len(net["edges"]) + len(case["matchings"]) + len(net["nodes"])) % 3 == 0:
+        # aliasing / call history: the caller moves the network IN PLACE after it was used (every vertex of every edge
+        # geometry and every node, same vertex counts), rebuilds the spatial index and the prepared distances as the
+        # documentation asks, and matches a track moved the same way: the answers must be about the geometry as it
+        # is NOW
+        import copy as _copy
+        from tracklib.core.spatial_index import SpatialIndex
+        dx, dy = 1024.5, -768.25
+        for e in network.EDGES.values():
+            for o in e.geom.getObsList():
+                o.position.setX(o.position.getX() + dx)
+                o.position.setY(o.position.getY() + dy)
+        for nd in network.NODES.values():
+            nd.coord.setX(nd.coord.getX() + dx)
+            nd.coord.setY(nd.coord.getY() + dy)
+        ix = net["index"]
+        res = tuple(ix["resolution"]) if ix["resolution"] is not None else None
+        rb = M.call(lambda: (setattr(network, "spatial_index", SpatialIndex(network, resolution=res, margin=ix["margin"],
+                                                                           verbose=False)), network.prepare(verbose=False)))
+        if M.is_raised(rb):
+            raise M.HarnessError("re-preparing the moved network failed: " + rb.brief())
+        net2 = _copy.deepcopy(net)
+        net2["nodes"] = {k: [v[0] + dx, v[1] + dy] for k, v in net["nodes"].items()}
+        for e in net2["edges"]:
+            e["pts"] = [[q[0] + dx, q[1] + dy] for q in e["pts"]]
+        mt2 = _copy.deepcopy(case["matchings"][0])
+        mt2["mode"] = "single" if mt2["mode"] == "rematch" else mt2["mode"]
+        for t in mt2["tracks"]:
+            t["fixes"] = [[f[0] + dx, f[1] + dy, f[2], f[3]] for f in t["fixes"]]
+        case2 = dict(case, net=net2, matchings=list(case["matchings"]) + [mt2])
+        w = _run_matching(case2, network, mt2, len(case["matchings"]), ctx, cls, stats)
+        cls.add("history_network_moved_in_place_and_prepared_again")
+        if w:
+            w["history"] = "the network was moved in place by (%r, %r), indexed and prepared again, then matched" % (dx, dy)
+            w["net_flavour"] = net["flavour"]
+            if classify(case2, w) is None:
+                return violated(w, sig, stats["matched"] > 0, sorted(cls))
+            known = w
     if known is not None:
         return violated(known, sig, stats["matched"] > 0, sorted(cls))
     return held(sig, stats["matched"] > 0, sorted(cls))
